@@ -39,9 +39,9 @@ func (g *gen06) pick(xs []string) string { return xs[g.r.Intn(len(xs))] }
 func (g *gen06) ident() string           { return g.pick(identPool) }
 func (g *gen06) table() string {
 	if g.r.Intn(2) == 0 {
-		return "ks." + g.pick([]string{"t", "tbl", "\"T\"", "local"})
+		return "ks." + g.pick([]string{"t", "tbl", "\"T\"", "local", "json", "values"})
 	}
-	return g.pick([]string{"t", "tbl", "users"})
+	return g.pick([]string{"t", "tbl", "users", "json", "JSON", "\"json\"", "set", "ttl", "key", "token_t", "batch_t"})
 }
 
 func (g *gen06) list(n int, f func() string, sep string) string {
